@@ -259,8 +259,15 @@ where
 }
 
 fn make_abbreviated_namespace(namespace: &str, existing_namespaces: &[Rc<Namespace>]) -> String {
+    // the abbreviation becomes an XML prefix and part of a Rust module name: keep ASCII letters
+    // and digits only, and never start with a digit or end up empty
     fn take_three_chars_max(namespace: &str) -> String {
-        namespace.chars().filter(|c| c != &'.').take(3).collect()
+        let abbreviation: String = namespace.chars().filter(char::is_ascii_alphanumeric).take(3).collect();
+        match abbreviation.chars().next() {
+            None => "ns".to_string(),
+            Some(c) if c.is_ascii_digit() => format!("n{abbreviation}"),
+            Some(_) => abbreviation,
+        }
     }
 
     let mut append: Option<usize> = None;
